@@ -86,14 +86,15 @@ func (f *Fragment) AddChild(b Box) {
 
 // AddEmsg inserts an emsg box at the end of a sequence of emsg boxes at the start of the fragment.
 func (f *Fragment) AddEmsg(emsg *EmsgBox) {
-	prevEmsg := -1
-	for i, c := range f.Children {
-		if _, ok := c.(*EmsgBox); ok {
-			prevEmsg = i
+	newIdx := 0 // behind the run of emsg boxes the fragment starts with (an emsg further back is not part of it)
+	for newIdx < len(f.Children) {
+		if _, ok := f.Children[newIdx].(*EmsgBox); !ok {
+			break
 		}
+		newIdx++
 	}
-	newIdx := prevEmsg + 1
-	f.Children = append(f.Children[:newIdx+1], f.Children[newIdx:]...)
+	f.Children = append(f.Children, nil) // grows the slice; slicing beyond len(f.Children) panics when cap is used up
+	copy(f.Children[newIdx+1:], f.Children[newIdx:])
 	f.Children[newIdx] = emsg
 }
 
